@@ -337,7 +337,22 @@ pub fn run_batch(prop: &dyn Prop, opt: &Options) -> i32 {
                         if again.hash != out.hash
                             || again.fail.as_ref().map(|f| &f.0) != out.fail.as_ref().map(|f| &f.0)
                         {
-                            local.det_mismatch.push(i);
+                            // Properties whose runs issue real syscalls share the machine with
+                            // whatever else is running (a helper thread of a runtime that is starved
+                            // of CPU, for one). A mismatch there counts only if it repeats: the job is
+                            // executed twice more and must then agree with itself. Purely simulated
+                            // properties get no second chance.
+                            let mut noise = false;
+                            if prop.watchdog_secs().is_some() {
+                                let a2 = run_one(prop, tape_for(&jobs[i], opt.seed, id), false, false);
+                                let b2 = run_one(prop, tape_for(&jobs[i], opt.seed, id), false, false);
+                                noise = a2.hash == b2.hash && a2.fail.as_ref().map(|f| &f.0) == b2.fail.as_ref().map(|f| &f.0);
+                            }
+                            if noise {
+                                *local.stats.entry("determinism.mismatch_on_real_sockets_that_did_not_repeat".to_string()).or_insert(0) += 1;
+                            } else {
+                                local.det_mismatch.push(i);
+                            }
                         }
                     }
                     if let Some((class, msg)) = out.fail {
